@@ -138,7 +138,7 @@ fn main() {
                 "restart_process" => json!({"ok": true}),
                 "open" | "reopen" => {
                     insts.remove(&iname);
-                    let d = if let Some(sub) = op["subdir"].as_str() { dir.join(sub) } else { dir.clone() };
+                    let d = if let Some(sub) = op["subdir"].as_str() { let p = dir.join(sub); let _ = std::fs::create_dir_all(&p); p } else { dir.clone() };
                     match open(cfg, &d, op) {
                         Ok(w) => { insts.insert(iname.clone(), w); json!({"ok": true}) }
                         Err(e) => err_json(&e),
